@@ -147,12 +147,13 @@ func stOpen(dir string, capMB uint64, node [32]byte) (*stStore, error) {
 }
 
 // prune() starts `go db.Compact(...)`; closing the database before that goroutine has finished makes it
-// panic (pebble: closed) and kills the process.  Wait until no goroutine is inside prune.func1.
+// panic (pebble: closed) and kills the process.  Wait until no goroutine started by the store package is left
+// (matched by its "created by" frame, so the wait survives renames / extraction of the compaction closure).
 func waitPruneGoroutines() {
 	buf := make([]byte, 1<<20)
 	for i := 0; i < 20000; i++ {
 		n := runtime.Stack(buf, true)
-		if !bytes.Contains(buf[:n], []byte("ContentStorage).prune.func1")) {
+		if !bytes.Contains(buf[:n], []byte("created by github.com/zen-eth/shisui/storage/pebble.")) {
 			return
 		}
 		time.Sleep(500 * time.Microsecond)
